@@ -253,9 +253,9 @@ struct GenStats {
 };
 
 // History kinds
-enum Kind { K_NONE, K_ONE, K_BEFORE, K_BETWEEN, K_AFTER, K_FAT, K_ODD, K_LEGACY_A, K_LEGACY_B, K_DSTFIRST, K_LEGACY_NEG, K_BIGBANG_CHANGE, K_NKINDS };
+enum Kind { K_NONE, K_ONE, K_BEFORE, K_BETWEEN, K_AFTER, K_FAT, K_ODD, K_LEGACY_A, K_LEGACY_B, K_DSTFIRST, K_LEGACY_NEG, K_BIGBANG_CHANGE, K_TYPES255, K_CHARS255, K_NKINDS };
 inline const char* kind_name(int k) {
-  static const char* n[] = {"none", "one", "seam-before", "seam-between", "seam-after", "fat-bigbang", "oddities", "legacy-dst-type0-first", "legacy-dst-type0-later", "first-period-is-dst", "legacy-negative-dst-type0", "bigbang-entry-changes-type"};
+  static const char* n[] = {"none", "one", "seam-before", "seam-between", "seam-after", "fat-bigbang", "oddities", "legacy-dst-type0-first", "legacy-dst-type0-later", "first-period-is-dst", "legacy-negative-dst-type0", "bigbang-entry-changes-type", "typecnt-255", "charcnt-255"};
   return n[k];
 }
 
@@ -403,6 +403,35 @@ inline bool build_zone(const Footer& f, int kind, int version, GenZone* out, Gen
       }
       break;
     }
+    case K_TYPES255: {
+      // exactly 255 local-time types in the file (LMT + 253 fillers + the final regime): the ONE type the footer has
+      // to add gets index 255, the last value an 8-bit type index can hold
+      long long t = T_LMT;
+      for (int i = 0; i < 253; ++i) { push(t, TType{S + 60 * (i + 1), false, "FIL"}); t += YEAR / 4; }
+      t += YEAR;
+      push(t, regime(t));
+      if (T.size() != 255) return false;
+      break;
+    }
+    case K_CHARS255: {
+      // abbreviation table of exactly 255 bytes: an abbreviation the footer has to append starts at index 255
+      long long t = T_LMT + 2 * YEAR;
+      const TType last = regime(t + 40 * YEAR);
+      if (last.abbr == "LMT") return false;
+      int need = 255 - 4 - static_cast<int>(last.abbr.size() + 1);   // bytes left for the filler names (each + NUL)
+      int i = 0;
+      while (need > 0) {
+        int len = need >= 100 ? 49 : need - 1;          // name length; the last filler takes what is left
+        if (len < 3) return false;
+        std::string nm(static_cast<size_t>(len), static_cast<char>('A' + i));
+        push(t, TType{S + 600 * (i + 1), false, nm});
+        t += YEAR;
+        need -= len + 1;
+        ++i;
+      }
+      push(t + 40 * YEAR - (t - (T_LMT + 2 * YEAR)), last);
+      break;
+    }
     case K_FAT: {
       if (version < 2) return false;
       s.fat = true;
@@ -504,7 +533,7 @@ inline bool build_zone(const Footer& f, int kind, int version, GenZone* out, Gen
     default:
       return false;
   }
-  if (T.size() > 250) return false;
+  if (T.size() > 255) return false;
   for (auto& t : T) if (t.off <= -86400 || t.off >= 86400) { st->filtered_spacing++; return false; }
   // spacing filter over the recorded transitions (skip the big-bang entry)
   for (size_t i = 1; i < s.times.size(); ++i) {
